@@ -147,6 +147,8 @@ func (t *ATable) AddHeaders(items ...interface{}) Table {
 	for i := range items {
 		hr.Add(NewCell(items[i]))
 	}
+	// only now, so that the cell callbacks below run exactly once per cell
+	hr.inTable = t
 	t.headerRow = hr
 
 	invokePropertyCallbacks(t.tableRowAdditionCallbacks, CB_AT_ADD, hr, t.ErrorContainer)
